@@ -39,7 +39,11 @@ def fn_body(text, name):
 
 
 def norm(s):
-    return " ".join(s.split())
+    s = " ".join(s.split())
+    s = re.sub(r",\s*$", "", s)              # trailing comma of a multi-line argument list
+    s = re.sub(r"\(\s+", "(", s)
+    s = re.sub(r",?\s+\)", ")", s)
+    return s
 
 
 def first_diff(got, want, what):
